@@ -46,7 +46,7 @@ def gen_base(rng, quick):
 
 def gen_cases(rng, n, quick):
     cases = []
-    subs = ['perm', 'term', 'perm', 'term', 'term_inf']
+    subs = ['perm', 'term', 'lop', 'perm', 'term', 'term_inf', 'lop', 'lop_inf']
     k = 0
     while len(cases) < n:
         sub = subs[k % len(subs)]
@@ -56,6 +56,22 @@ def gen_cases(rng, n, quick):
             case.update(base=gen_base(rng, quick), mode=rng.choice(PERM_MODES))
         elif sub == 'term':
             case.update(base=gen_base(rng, quick), mode=rng.choice(TERM_MODES))
+        elif sub == 'lop':
+            base = gen_base(rng, quick)
+            if rng.random() < 0.5:   # long chains of small sites: room for 4- and 5-site operators
+                kk = rng.choice([['SpinHalf', None], ['SpinHalf', 'parity'], ['SpinHalf', 'Sz'], ['Fermion', 'N'],
+                                 ['Fermion', None], ['Fermion', 'parity']])
+                base['sites'] = {'kinds': [kk] * rng.randint(4, 7)}
+            case.update(base=base, n=rng.choice([1, 2, 3, 4, 4, 5, 5]), unitary_op=rng.random() < 0.6,
+                        flag=rng.choice([None, None, True, False]), renorm=rng.random() < 0.3,
+                        cutoff=rng.choice([1e-13, 1e-13, 1e-12, 1e-10]))
+        elif sub == 'lop_inf':
+            L = rng.randint(2, 5)
+            kk = rng.choice([['SpinHalf', None], ['SpinHalf', 'parity'], ['Fermion', None], ['Fermion', 'parity']])
+            case.update(inf=dict(kind='inf', seed=rng.getrandbits(31), complex=rng.random() < 0.3,
+                                 sites={'kinds': [kk] * L}, chi=[rng.randint(1, 2) for _ in range(L)]),
+                        n=rng.choice([1, 2, 3, 4, 4, 5, 5]), flag=rng.choice([None, None, True]),
+                        cutoff=rng.choice([1e-13, 1e-12]))
         else:
             L = rng.randint(1, 3)
             kk = rng.choice(INF_KINDS)
@@ -69,6 +85,8 @@ def gen_cases(rng, n, quick):
 def eval_ext(case):
     if case['sub'] == 'perm':
         return eval_perm(case)
+    if case['sub'] in ('lop', 'lop_inf'):
+        return eval_lop(case)
     return eval_term(case)
 
 
@@ -356,3 +374,147 @@ def eval_term(case):
         return bad
 
     return dict(oracle=oracle, lines=lines, compare=compare, nontrivial=len(term) > 0, hist=hist)
+
+
+# ----------------------------------------------------------------------------------------------------------------
+# apply_local_op with operators on 1..5 sites (oracle only)
+
+
+def _random_op(sites, nprng, unitary, cplx):
+    """charge-conserving random operator on `sites` as (dense D x D matrix, npc Array with labels p0.. / p0*..)."""
+    import scipy.linalg
+    import tenpy.linalg.np_conserved as npc
+    n = len(sites)
+    dims = [s.dim for s in sites]
+    D = int(np.prod(dims))
+    chinfo = sites[0].leg.chinfo
+    M = nprng.normal(size=(D, D)) + (1j * nprng.normal(size=(D, D)) if cplx else 0.0)
+    if chinfo.qnumber > 0:
+        q = np.zeros((D, chinfo.qnumber), dtype=int)
+        idx = np.array(np.unravel_index(np.arange(D), dims)).T
+        for k, st in enumerate(sites):
+            q = q + st.leg.to_qflat()[idx[:, k]] * st.leg.qconj
+        q = chinfo.make_valid(q)
+        M = M * np.all(q[:, None, :] == q[None, :, :], axis=2)
+    if unitary:
+        M = scipy.linalg.expm(1j * (M + M.conj().T) if cplx else (M - M.T))
+    else:
+        M = M + 0.5 * np.eye(D) * np.sign(nprng.normal())
+    if n == 1:
+        labels = ['p', 'p*']
+    else:
+        labels = ['p%d' % k for k in range(n)] + ['p%d*' % k for k in range(n)]
+    op = npc.Array.from_ndarray(M.reshape(dims + dims), [st.leg for st in sites] + [st.leg.conj() for st in sites],
+                                labels=labels, cutoff=1e-14)
+    return M, op
+
+
+def _schmidt(vec, dims, b):
+    m = (vec / np.linalg.norm(vec)).reshape(int(np.prod(dims[:b])), -1)
+    return np.linalg.svd(m, compute_uv=False)
+
+
+def _same_spectrum(a, b, tol=1e-7):
+    a = np.sort(np.asarray(a).real)[::-1]
+    b = np.sort(np.asarray(b).real)[::-1]
+    k = max(len(a), len(b))
+    a = np.concatenate([a, np.zeros(k - len(a))])
+    b = np.concatenate([b, np.zeros(k - len(b))])
+    return bool(np.all(np.abs(a - b) <= tol))
+
+
+def eval_lop(case):
+    nprng = np.random.default_rng(case['seed'])
+    oracle = []
+    inf = case['sub'] == 'lop_inf'
+    n = case['n']
+    if inf:
+        b = mc.build_infinite(case['inf'])
+        psi = b['psi']
+        w = mc.transfer_spectrum(b['dense'])[0]
+        if (len(w) > 1 and abs(w[1]) > 0.9 * abs(w[0])) or abs(w[0]) < 1e-8:
+            return dict(skip='inf: degenerate/zero (generator)')
+        psi.canonical_form()
+        L = psi.L
+        n = min(n, L)
+        i = int(nprng.integers(0, L))
+        sites = [psi.get_site(j) for j in range(i, i + n)]
+        cplx = psi.dtype.kind == 'c' or nprng.random() < 0.3
+        M, op = _random_op(sites, nprng, True, cplx)
+        hist = ['ext=lop_inf', 'L=%d' % L, 'n_sites=%d' % n, 'flag=%s' % case['flag']]
+        th0 = mc.np_theta(psi, i, n)
+        rho0 = th0.reshape(th0.shape[0], -1, th0.shape[-1])
+        rho0 = np.einsum('apb,aqb->pq', rho0, rho0.conj())
+        tag = 'C09.ext.apply_local_op[infinite bc, %s]' % ('one site' if n == 1 else 'multi-site')
+        try:
+            with warnings.catch_warnings():
+                warnings.simplefilter('ignore')
+                psi.apply_local_op(i, op, unitary=case['flag'], cutoff=case['cutoff'], understood_infinite=True)
+                nt = float(np.max(np.abs(psi.norm_test())))
+                th1 = mc.np_theta(psi, i, n)
+                p2 = psi.copy()
+                p2.canonical_form()
+        except Exception as e:
+            oracle.append((tag + '.raises:' + type(e).__name__, repr(e)[:200]))
+            return dict(oracle=oracle, lines=[], nontrivial=True, hist=hist)
+        rho1 = th1.reshape(th1.shape[0], -1, th1.shape[-1])
+        rho1 = np.einsum('apb,aqb->pq', rho1, rho1.conj())
+        want = M @ rho0 @ M.conj().T
+        if not np.all(np.abs(rho1 - want) <= 1e-8):
+            oracle.append((tag + '.density-matrix', 'rho on the %d sites is not U rho U^dagger: %.3g' % (n, mc.maxerr(rho1, want))))
+        if nt > 1e-7:
+            oracle.append((tag + '.norm_test', 'max %.3g after a unitary on %d sites at %d (L=%d)' % (nt, n, i, L)))
+        for bnd in range(L):
+            if not _same_spectrum(psi.get_SL(bnd), p2.get_SL(bnd)):
+                oracle.append((tag + '.singular-values', 'stored S on bond %d is not the Schmidt spectrum (n=%d, i=%d, L=%d)' % (
+                    bnd, n, i, L)))
+                break
+        return dict(oracle=oracle, lines=[], nontrivial=True, hist=hist)
+    st = mc.build_state(case['base'])
+    psi = st['psi']
+    L = psi.L
+    vec = mc.np_state(psi).reshape(-1).astype(complex)
+    if not mc.close(vec, st['ref'].reshape(-1), 1e-8 * max(1.0, float(np.max(np.abs(vec))))):
+        return dict(skip='base state does not denote its input (C07 territory)')
+    n = min(n, L)
+    i = int(nprng.integers(0, L - n + 1))
+    sites = list(psi.sites)
+    dims = [s.dim for s in sites]
+    cplx = psi.dtype.kind == 'c' or nprng.random() < 0.3
+    is_u = bool(case['unitary_op'])
+    M, op = _random_op(sites[i:i + n], nprng, is_u, cplx)
+    flag = case['flag']
+    if flag is True and not is_u:
+        flag = None
+    renorm = bool(case['renorm'])
+    hist = ['ext=lop', 'L=%d' % L, 'n_sites=%d' % n, 'flag=%s' % flag, 'unitary-op=%s' % is_u, 'renormalize=%s' % renorm]
+    t = vec.reshape(dims)
+    Mt = M.reshape(dims[i:i + n] * 2)
+    new = np.tensordot(Mt, t, axes=[list(range(n, 2 * n)), list(range(i, i + n))])
+    new = np.moveaxis(new, list(range(n)), list(range(i, i + n))).reshape(-1)
+    if np.linalg.norm(new) < 1e-3 * np.linalg.norm(vec):
+        return dict(skip='lop: operator (nearly) annihilates the state (generator)')
+    if renorm:
+        new = new / np.linalg.norm(new) * np.linalg.norm(vec)
+    tag = 'C09.ext.apply_local_op[%s]' % ('one site' if n == 1 else 'multi-site')
+    try:
+        with warnings.catch_warnings():
+            warnings.simplefilter('ignore')
+            psi.apply_local_op(i, op, unitary=flag, renormalize=renorm, cutoff=case['cutoff'])
+            got = mc.np_state(psi).reshape(-1)
+            nt = float(np.max(np.abs(psi.norm_test())))
+    except Exception as e:
+        oracle.append((tag + '.raises:' + type(e).__name__, repr(e)[:200]))
+        return dict(oracle=oracle, lines=[], nontrivial=True, hist=hist)
+    scale = max(1.0, float(np.max(np.abs(new))))
+    if got.shape != new.shape or not np.all(np.abs(got - new) <= 1e-8 * scale):
+        oracle.append((tag + '.state', 'dense state differs from the dense application: %.3g (n=%d, i=%d, L=%d, unitary=%r)' % (
+            mc.maxerr(got, new), n, i, L, flag)))
+    if nt > 1e-7:
+        oracle.append((tag + '.norm_test', 'max %.3g (n=%d, i=%d, L=%d, unitary=%r)' % (nt, n, i, L, flag)))
+    for bnd in range(1, L):
+        if not _same_spectrum(psi.get_SL(bnd), _schmidt(new, dims, bnd)):
+            oracle.append((tag + '.singular-values', 'stored S on bond %d is not the Schmidt spectrum of the dense state '
+                           '(n=%d, i=%d, L=%d, unitary=%r)' % (bnd, n, i, L, flag)))
+            break
+    return dict(oracle=oracle, lines=[], nontrivial=True, hist=hist)
